@@ -170,6 +170,22 @@ func (x *Exec) loadLoc(s *State, l *Loc) Val {
 			v.L[i] = x.heapLoad(s, l.Path+lf.Suffix, lf.Sort, l.Base)
 		}
 		x.assumeRanges(s, v)
+		// the initial heap is closed: every reference stored in it is nil or allocated
+		ls0 := leavesOf(l.Typ)
+		for _, i := range refLeaves(l.Typ) {
+			init := "(select H0." + x.arrName(l.Path+ls0[i].Suffix) + " " + l.Base + ")"
+			if _, declared := x.D.sorts["H0."+x.arrName(l.Path+ls0[i].Suffix)]; !declared {
+				continue
+			}
+			f := "(or (= " + init + " 0) (select Alloc0 " + init + "))"
+			if s.ranged == nil {
+				s.ranged = map[string]bool{}
+			}
+			if !s.ranged[f] {
+				s.ranged[f] = true
+				s.pc = append(s.pc, f)
+			}
+		}
 		if strings.HasPrefix(l.Path, "glob:") {
 			x.assumeTableFacts(s, strings.TrimPrefix(l.Path, "glob:"), v)
 		}
@@ -580,7 +596,7 @@ func (x *Exec) execInstr(s *State, in ssa.Instruction) {
 		} else if mc, ok := in.Call.Value.(*ssa.MakeClosure); ok {
 			name = "go " + fnName(mc.Fn.(*ssa.Function))
 		}
-		s.events = append(s.events, Event{Name: name, Args: args})
+		s.addEvent(Event{Name: name, Args: args})
 	case *ssa.MakeClosure:
 		fn := in.Fn.(*ssa.Function)
 		env := x.allocRef(s, "env")
@@ -657,7 +673,7 @@ func (x *Exec) execInstr(s *State, in ssa.Instruction) {
 	case *ssa.Send:
 		ch := x.val(s, in.Chan)
 		v := x.val(s, in.X)
-		s.events = append(s.events, Event{Name: "chan.send", Recv: &ch, Args: []Val{v}})
+		s.addEvent(Event{Name: "chan.send", Recv: &ch, Args: []Val{v}})
 	default:
 		unsupported("instruction %T: %s", in, in)
 	}
@@ -899,7 +915,7 @@ func (x *Exec) execUnOp(s *State, in *ssa.UnOp) {
 		ct := in.X.Type().Underlying().(*types.Chan)
 		v := x.freshVal(s, ct.Elem(), "recv")
 		ev := Event{Name: "chan.recv", Recv: &xv, Res: []Val{v}}
-		s.events = append(s.events, ev)
+		s.addEvent(ev)
 		if in.CommaOk {
 			ok := x.D.fresh("recvok", "Bool")
 			s.top().regs[in] = Val{Typ: in.Type(), L: append(append([]string(nil), v.L...), ok)}
@@ -1233,6 +1249,6 @@ func (x *Exec) selectOp(s *State, in *ssa.Select) {
 			ev.Args = append(ev.Args, sv)
 		}
 	}
-	s.events = append(s.events, ev)
+	s.addEvent(ev)
 	s.top().regs[in] = r
 }
